@@ -8,6 +8,7 @@ import RapidProofs.PassRefine
 import RapidProofs.PruneAssert
 import RapidModel.Generated.CallOrders
 import RapidProofs.PruneCustomAssert
+import RapidProofs.TranslatedMinEq
 
 namespace Rapid.C05
 
@@ -132,5 +133,23 @@ theorem accept_and_minimize_conditions_source :
       "if rec.groups[j].end >= g.end"] ∧
     conds_prune = ["for i < len(rec.groups)", "if rec.groups[i].discard"] := by
   decide
+
+/-! ### the order and the cutting of shrink.go, translated on every run -/
+
+/-- **`compareData` of /repo is the model's `compareData`** — the order in which the shrinker's `accept` demands every
+    accepted candidate to be strictly smaller (length first, then lexicographic) -/
+theorem source_compareData (a b : List UInt64) (fuel : Nat) (ha : a.length < 2 ^ 62) (hb : b.length < 2 ^ 62) (hf : a.length < fuel) :
+    Translated.compareData a b fuel = .ok (Int64.ofInt (compareData a b)) :=
+  tr_compareData a b fuel ha hb hf
+
+/-- **`without(data, groups...)` of /repo is the model's `without?`** for groups with usable bounds: the groups are cut
+    out last first; a bound outside the data is a runtime panic in the source and `none` in the model -/
+theorem source_without (data : List UInt64) (groups : List Translated.groupInfo) (fuel : Nat) (hok : ∀ g ∈ groups, GOK g)
+    (hl : groups.length < 2 ^ 62) (hf : groups.length < fuel) :
+    Translated.without data groups fuel =
+      match without? data (groups.map giOf) with
+      | some d => .ok d
+      | none => .error .runtime :=
+  tr_without data groups fuel hok hl hf
 
 end Rapid.C05
